@@ -182,6 +182,10 @@ func (rt readTxn) ID() string {
 //
 // If a value already exists for the resource ID, id, an error is returned.
 func (wt writeTxn) Create(v interface{}) error {
+	// The store does not generate IDs
+	if wt.id == "" {
+		return errors.New("missing ID")
+	}
 	vv := reflect.ValueOf(v)
 	t := wt.st.t
 	if t == nil {
